@@ -234,10 +234,55 @@ pub fn reset_clock() {
     pgp::types::verif_clock::set(Some(PLAN_CLOCK.with(|p| p.get())));
 }
 
+thread_local! {
+    /// family name and plan of the run in progress on this thread, for the allocation trap
+    static TRAP_CTX: std::cell::Cell<(*const Family, *const Value)> = const { std::cell::Cell::new((std::ptr::null(), std::ptr::null())) };
+}
+static TRAP_PROP: Mutex<(String, u64)> = Mutex::new((String::new(), 0));
+
+/// Allocation trap (see alloc::HUGE): a run asked for an absurd single allocation.  The process could
+/// only abort, so the violation is reported from here: replay file, VIOLATION line, exit 1.
+#[allow(unsafe_code)]
+fn huge_alloc_trap(size: usize) {
+    let (fam, plan) = TRAP_CTX.with(|c| c.get());
+    if fam.is_null() || plan.is_null() {
+        return;
+    }
+    // SAFETY: both point into values that outlive run_plan, which clears the context before returning
+    let (fam, plan) = unsafe { (&*fam, &*plan) };
+    let bt = std::backtrace::Backtrace::force_capture().to_string();
+    let site = bt
+        .lines()
+        .filter_map(|l| l.trim().strip_prefix("at "))
+        .find(|l| l.contains("/repo/src/"))
+        .map(|l| norm_loc(l))
+        .unwrap_or_else(|| "<unknown>".into());
+    let (property, seed) = TRAP_PROP.lock().map(|g| g.clone()).unwrap_or_default();
+    let v = Violation {
+        class: "allocation-aborts".into(),
+        site,
+        detail: format!("a single allocation of {size} octets was requested (at or above {} octets the allocator refuses and the process aborts)", crate::alloc::HUGE),
+        plan: plan.clone(),
+    };
+    let path = write_replay(&property, fam.name, seed, &v, None);
+    println!("violation class={} site={} :: {}", v.class, v.site, v.detail);
+    println!("VIOLATION property={property} replay={path}");
+    use std::io::Write;
+    let _ = std::io::stdout().flush();
+    std::process::exit(1);
+}
+
+pub fn arm_alloc_trap(property: &str, seed: u64) {
+    *TRAP_PROP.lock().unwrap() = (property.to_string(), seed);
+    crate::alloc::set_trap(huge_alloc_trap);
+}
+
 pub fn run_plan(fam: &Family, plan: &Value) -> Rec {
     let mut rec = Rec::default();
     set_clock(plan);
+    TRAP_CTX.with(|c| c.set((fam as *const Family, plan as *const Value)));
     let r = guard(|| (fam.run)(plan, &mut rec));
+    TRAP_CTX.with(|c| c.set((std::ptr::null(), std::ptr::null())));
     if let Err(p) = r {
         rec.violation(
             "harness-panic",
@@ -523,6 +568,7 @@ pub fn run_check(check: &Check, tier: Tier, seed: u64, threads: usize) -> Outcom
     let known = load_known();
     println!("VERIF_SEED={seed} property={} tier={:?} threads={threads}", check.property, tier);
     start_watchdog(check.property, 120);
+    arm_alloc_trap(check.property, seed);
 
     let mut total = Rec::default();
     let mut per_family = serde_json::Map::new();
@@ -656,6 +702,7 @@ pub fn replay_file(checks: &[Check], path: &str) -> i32 {
     let family = doc["family"].as_str().unwrap_or("");
     let class = doc["class"].as_str().unwrap_or("");
     let site = doc["site"].as_str().unwrap_or("");
+    arm_alloc_trap(property, doc["seed"].as_u64().unwrap_or(0));
     for c in checks {
         if c.property != property {
             continue;
